@@ -44,6 +44,8 @@ def gen_user_section(rng, u, creator, ext=False, flavor=None, fixtures=True, plu
             k = rng.choice(["Section Version", "Sub-section type", "Created by"])
             doc[k] = rng.choice(["2.7-rc1", 99, "phosphor-fan-monitor", ["x"]])
             clobbered.append(k)
+        if isinstance(doc, dict) and rng.random() < 0.06:
+            doc["big " + u.token(5)] = (u.token(8) + " ") * rng.choice([500, 1000, 4000])      # payloads of 4 .. 36 KiB
         txt = json.dumps(doc, ensure_ascii=rng.random() < 0.5, indent=rng.choice([None, None, 2]))
         payload = nul_pad(txt.encode("utf-8"), 4, rng.choice([0, 0, 4]))
         mode = "json"
@@ -51,6 +53,8 @@ def gen_user_section(rng, u, creator, ext=False, flavor=None, fixtures=True, plu
     elif flavor == "bmc_text":
         eff, comp, sub = "O", 0x2000, 3
         lines = pm.text_payload(rng, u)
+        if rng.random() < 0.06:
+            lines += [u.token(8) + " line %d" % k for k in range(rng.choice([300, 900, 3000]))]       # 4 .. 50 KiB of text
         raw = "\n".join(lines) + rng.choice(["", "\n"])
         payload = nul_pad(raw.encode("utf-8"), 4, rng.choice([0, 0, 4]))
         if not payload:
